@@ -150,4 +150,35 @@ def sinv (dm : Dims) (y x : List Rat) : List Rat :=
     ofFn k fun i j => if j ≤ i then ent k t.2.2 i j / ((t.2.1.getD i 0 + t.2.1.getD j 0) / 2) else ent k t.2.2 i j
   join (List.zipWith (fun yv xv => xv / yv) ylin a.1, List.zipWith sinvQ yq a.2.1, sb)
 
+/-- split a vector whose 's' parts are stored as diagonals (`Σ s` numbers after the 'q' blocks) -/
+def splitDiag (d : Dims) (y : List Rat) : List Rat × List (List Rat) × List (List Rat) :=
+  let n0 := d.mnl + d.l
+  let rec goQ (qs : List Nat) (r : List Rat) : List (List Rat) × List Rat :=
+    match qs with
+    | [] => ([], r)
+    | m :: ms => let p := goQ ms (r.drop m); (r.take m :: p.1, p.2)
+  let (yq, yrest) := goQ d.q (y.drop n0)
+  let rec goD (ss : List Nat) (r : List Rat) : List (List Rat) :=
+    match ss with
+    | [] => []
+    | k :: ks => r.take k :: goD ks (r.drop k)
+  (y.take n0, yq, goD d.s yrest)
+
+/-- the diagonal Jordan product on one 's' block: entry `(i, j)` of the lower triangle is multiplied by `(y_i + y_j)/2` -/
+def sprodDiagBlk (k : Nat) (yd x : List Rat) : List Rat :=
+  ofFn k fun i j => if j ≤ i then ent k x i j * ((yd.getD i 0 + yd.getD j 0) / 2) else ent k x i j
+/-- ... and its inverse -/
+def sinvDiagBlk (k : Nat) (yd x : List Rat) : List Rat :=
+  ofFn k fun i j => if j ≤ i then ent k x i j / ((yd.getD i 0 + yd.getD j 0) / 2) else ent k x i j
+
+/-- `sprod(x, y, dims, mnl, diag='D')`: `x := y ∘ x`, the 's' part of `y` diagonal -/
+def sprodDiag (dm : Dims) (y x : List Rat) : List Rat :=
+  let a := splitAtDims dm x; let b := splitDiag dm y
+  join (List.zipWith (· * ·) b.1 a.1, List.zipWith sprodQ b.2.1 a.2.1, (dm.s.zip (b.2.2.zip a.2.2)).map fun t => sprodDiagBlk t.1 t.2.1 t.2.2)
+
+/-- `ssqr(x, y, dims, mnl)`: `x := y ∘ y` where the 's' parts of `x` and `y` are diagonals -/
+def ssqr (dm : Dims) (y : List Rat) : List Rat :=
+  let b := splitDiag dm y
+  b.1.map (fun v => v * v) ++ (b.2.1.map fun q => sprodQ q q).flatten ++ (b.2.2.map fun dg => dg.map fun v => v * v).flatten
+
 end CvxVerif.Kernels
